@@ -129,8 +129,9 @@ def run_case(ctx, case, rng):
   if len(mo.subgraphs) != len(singles):
     ctx.violation('subgraph_count', {}, base)
     return {}
-  for i, sp in enumerate(singles):
-    so = models.read(outs[i][1])
+  for k, sp in enumerate(singles):
+    i = spec.signatures[k]['subgraph']     # signature order need not be subgraph order
+    so = models.read(outs[k][1])
     a, b = sg_view(mo, i), sg_view(so, 0)
     ctx.count('comparisons')
     n_ins = len(a['operators']) - len(src.subgraphs[i].operators)
